@@ -11,7 +11,7 @@ from . import driver_engine as eng
 LEVEL = "model_checking"
 ENVS = [None, {"LC_ALL": "C"}, {"LC_ALL": "de_DE.UTF-8", "LANG": "de_DE.UTF-8"}, {"HOME": "/nonexistent"},
         {"TZ": "Asia/Tokyo"}, {"MALLOC_PERTURB_": "165"}, {"UNC_VERIF_TRACE": "aux_trace.ndjson", "UNC_VERIF_PASS": "1"}]
-OBS = ["L", "s", "ds_for_p"]
+OBS = ["L", "s", "ds_for_p", "dot", "dd"]
 
 
 def build_pool(ctx, unc, cfg, root, n):
